@@ -23,7 +23,9 @@ pub mod option_i64_null_as_zero {
             if value == 0 {
                 Ok(None)
             } else {
-                Ok(Some(value as i64))
+                i64::try_from(value)
+                    .map(Some)
+                    .map_err(|_| Error::invalid_value(serde::de::Unexpected::Unsigned(value), &self))
             }
         }
     }
